@@ -124,6 +124,7 @@ func TestPropSCIONClient(t *testing.T) {
 			t.Fatalf("harness: %v", err)
 		}
 		local := udp.UDPAddr{IA: lIA, Host: netlab.UDPAddr(netlab.Addr(1), 0)}
+		local.Host.Zone = rapid.SampledFrom([]string{"", "", "", "lo"}).Draw(t, "zone") // "lo": hardware timestamps only, i.e. none
 		remote := udp.UDPAddr{IA: r, Host: netlab.UDPAddr(netlab.Addr(0), 10123)}
 		srvA.Forget()
 		srvA.ClearPlans()
@@ -218,7 +219,7 @@ func TestPropSCIONClient(t *testing.T) {
 			var evaluated []netlab.Record
 			for _, r := range capt.Take() {
 				if strings.Contains(r.Msg, "failed to read packet tx timestamp") || strings.Contains(r.Msg, "failed to read packet rx timestamp") {
-					ci.fallback = true
+					labels["timestamp-fallback"]++
 				}
 				if r.Msg == "evaluated response" {
 					evaluated = append(evaluated, r)
